@@ -18,10 +18,19 @@ def main(argv):
     seed = int(os.environ.get("VERIF_SEED", "0") or 0)
     # PYTHONHASHSEED of this process and all (forked) workers is a function of VERIF_SEED
     want = str(seed % 4294967295)
-    if os.environ.get("PYTHONHASHSEED") != want and not os.environ.get("VERIF_NO_REEXEC"):
+    preload = None
+    if args.prop.upper() == "C20":
+        from mc.core import fsfault
+        preload = fsfault.ensure_shim()
+    need_exec = os.environ.get("PYTHONHASHSEED") != want and not os.environ.get("VERIF_NO_REEXEC")
+    if preload and preload not in os.environ.get("LD_PRELOAD", ""):
+        need_exec = True
+    if need_exec:
         env = dict(os.environ)
         env["PYTHONHASHSEED"] = want
         env["VERIF_NO_REEXEC"] = "1"
+        if preload:
+            env["LD_PRELOAD"] = preload
         os.execve(sys.executable, [sys.executable, os.path.abspath(sys.argv[0])] + argv, env)
     os.environ.setdefault("MWLIB_FETCH_MAX_REQUESTS_PER_SECOND", "0")
     from mc.core import build
